@@ -2,6 +2,8 @@
 # re-runs every recorded seeded change against the check of its property: applies seeded/<id>/patch.diff to /repo,
 # runs bin/check <property>, reverts. Prints one line per seed. The unchanged tree must be clean when this starts.
 cd /verif
+# the evidence files are rewritten by every run; keep the ones of the unchanged tree
+evsave=$(mktemp -d); cp -a evidence/. $evsave/
 for d in seeded/*/; do
   id=$(basename $d)
   prop=$(python3 -c "import json;print(json.load(open('$d/meta.json'))['property'])")
@@ -15,4 +17,5 @@ for d in seeded/*/; do
   echo "$id $prop exit=$rc violations=$n  $first"
   cd /verif
 done
+cp -a $evsave/. evidence/; rm -rf $evsave
 git -C /repo status --short | grep -v "^??"
